@@ -290,7 +290,7 @@ def opSet (key : Bytes) (v : Bytes) (keep : Bool) (exp : Int := 0) : FeedOp :=
   { typ := 25, key := key, args := [Bytes.toHex v, toString keep, toString exp] }
 
 def setOpt (s : MState) (now : Int) (key : Bytes) (value : DsStr.S) (keepTTL : Bool) : R :=
-  let (s, _) := writeKey s now key (some .strNil)
+  let (s, _) := writeKey s now key (some (.str []))
   match asStr s key with
   | none => (s, .panic)
   | some _ =>
@@ -299,7 +299,7 @@ def setOpt (s : MState) (now : Int) (key : Bytes) (value : DsStr.S) (keepTTL : B
     (emit (signal s key) (opSet key (DsStr.bytes value) keepTTL), .unit)
 
 def set (s : MState) (now : Int) (key value : Bytes) (keepTTL : Bool) : R :=
-  let (s, _) := writeKey s now key (some .strNil)
+  let (s, _) := writeKey s now key (some (.str []))
   match asStr s key with
   | none => (s, .panic)
   | some _ =>
@@ -308,7 +308,7 @@ def set (s : MState) (now : Int) (key value : Bytes) (keepTTL : Bool) : R :=
     (emit (signal s key) (opSet key value keepTTL), .unit)
 
 def getSet (s : MState) (now : Int) (key value : Bytes) : R :=
-  let (s, _) := writeKey s now key (some .strNil)
+  let (s, _) := writeKey s now key (some (.str []))
   match asStr s key with
   | none => (s, .panic)
   | some old =>
@@ -317,7 +317,7 @@ def getSet (s : MState) (now : Int) (key value : Bytes) : R :=
     (emit (signal s key) (opSet key value false), .bytes old)
 
 def setEX (s : MState) (now : Int) (key value : Bytes) (seconds : Int) : R :=
-  let (s, _) := writeKey s now key (some .strNil)
+  let (s, _) := writeKey s now key (some (.str []))
   match asStr s key with
   | none => (s, .panic)
   | some _ =>
@@ -326,7 +326,7 @@ def setEX (s : MState) (now : Int) (key value : Bytes) (seconds : Int) : R :=
     (emit (signal s key) (opSet key value false (expOf s key)), .unit)
 
 def setPX (s : MState) (now : Int) (key value : Bytes) (ms : Int) : R :=
-  let (s, _) := writeKey s now key (some .strNil)
+  let (s, _) := writeKey s now key (some (.str []))
   match asStr s key with
   | none => (s, .panic)
   | some _ =>
@@ -339,7 +339,7 @@ def setNX (s : MState) (now : Int) (key value : Bytes) (keepTTL : Bool) : R :=
   if ok then (s, .bool false) else
   -- meta = tx.newKey(meta, key, n.newStr): meta is the *empty copy*, so a brand-new record is
   -- published even if an (expired / unreadable) record is still indexed under that name
-  let s := newKeyWith s key none .strNil
+  let s := newKeyWith s key none (.str [])
   let s := if !keepTTL then setExp s key 0 else s
   let s := setVal s key (.str value)
   (emit (signal s key) (opSet key value keepTTL), .bool true)
@@ -363,7 +363,7 @@ def get (s : MState) (now : Int) (key : Bytes) : R :=
 
 /-- Incr / IncrBy / Decr / DecrBy: a non-numeric value or an int64 overflow is an error and changes nothing -/
 def addInt (s : MState) (now : Int) (key : Bytes) (delta : Int) (neg : Bool) (_swallow : Bool := false) : R :=
-  let (s, _) := writeKey s now key (some .strNil)
+  let (s, _) := writeKey s now key (some (.str []))
   match asStr s key with
   | none => (s, .panic)
   | some v =>
@@ -422,7 +422,7 @@ def formatFloat (x : F64) : Option Bytes :=
   (F64.toInt? x).map fun n => if n = 0 ∧ x >>> 63 == 1 then [45, 48] else formatInt n
 
 def incrByFloat (s : MState) (now : Int) (key : Bytes) (delta : F64) : R :=
-  let (s, _) := writeKey s now key (some .strNil)
+  let (s, _) := writeKey s now key (some (.str []))
   match asStr s key with
   | none => (s, .panic)
   | some v =>
@@ -441,7 +441,7 @@ def incrByFloat (s : MState) (now : Int) (key : Bytes) (delta : F64) : R :=
           (emit (signal s key) (opSet key t false), .many [.f64 sum, .err false])
 
 def setBit (s : MState) (now : Int) (key : Bytes) (offset : Int) (value : Bool) : R :=
-  let (s, _) := writeKey s now key (some .strNil)
+  let (s, _) := writeKey s now key (some (.str []))
   match asStr s key with
   | none => (s, .panic)
   | some v =>
@@ -464,7 +464,7 @@ def bitCount (s : MState) (now : Int) (key : Bytes) (start stop : Int) (bit : Bo
   | some v => (s, .int (if bit then DsStr.bitCountByBit v start stop else DsStr.bitCount v start stop))
 
 def append (s : MState) (now : Int) (key value : Bytes) : R :=
-  let (s, _) := writeKey s now key (some .strNil)
+  let (s, _) := writeKey s now key (some (.str []))
   match asStr s key with
   | none => (s, .panic)
   | some v =>
@@ -488,7 +488,7 @@ def strLen (s : MState) (now : Int) (key : Bytes) : R :=
   | some v => (s, .int (DsStr.len v))
 
 def setRange (s : MState) (now : Int) (key : Bytes) (offset : Int) (value : Bytes) : R :=
-  let (s, _) := writeKey s now key (some .strNil)
+  let (s, _) := writeKey s now key (some (.str []))
   match asStr s key with
   | none => (s, .panic)
   | some v =>
